@@ -16,6 +16,10 @@ CaseClauses(c) ==
   << Cl("C13.KeyError", cl = "KeyError", c.ff = "KeyError"),
      Cl("C13.TypeGate", cl = "ValueError", c.ff = "ValueError"),
      Cl("C13.BothFaults", cl = "Either", c.ff \in {"KeyError", "ValueError"}),
+     \* an integer for a float-only key: rejected with ValueError, or loaded like the constructor call with that integer
+     Cl("C13.TypeGate.IntForFloat", cl = "CtorOrValueError",
+        \/ c.ff = "ValueError"
+        \/ (c.ff = c.ct /\ (c.ff = "ok" => (c.da = c.db /\ c.ra = c.rb /\ c.pa = c.pb)))),
      \* handed to the constructor: same verdict, and when it builds a component, the same component
      Cl("C13.SameVerdict", cl = "Ctor", c.ff = c.ct),
      Cl("C13.Equal.Payload", cl = "Ctor" /\ c.ct = "ok" /\ c.ff = "ok", c.da = c.db),
@@ -27,7 +31,7 @@ CaseClauses(c) ==
      \* parameters) shows the same params() / limits() rows and the same solved table as before any file was loaded
      Cl("C13.Isolated", c.ref # "", c.ref = c.ref0) >>
 
-AllClauseNames == {"C13.KeyError", "C13.TypeGate", "C13.BothFaults", "C13.SameVerdict", "C13.Equal.Payload",
+AllClauseNames == {"C13.KeyError", "C13.TypeGate", "C13.TypeGate.IntForFloat", "C13.BothFaults", "C13.SameVerdict", "C13.Equal.Payload",
                    "C13.Equal.Rows", "C13.Equal.Probe", "C13.Reload", "C13.Isolated", "events"}
 RECURSIVE SetToSeq(_)
 SetToSeq(X) == IF X = {} THEN <<>> ELSE LET x == CHOOSE x \in X : TRUE IN <<x>> \o SetToSeq(X \ {x})
